@@ -16,6 +16,9 @@ func TestMain(m *testing.M) { gjs.MaybeWorker(); os.Exit(m.Run()) }
 
 // development aid: the impl_model phase alone (go test -tags "verif prop_c08" -run TestImplDev)
 func TestImplDev(t *testing.T) {
+	if os.Getenv("VERIF_C08_IMPL_DEV") == "" {
+		t.Skip("development aid; set VERIF_C08_IMPL_DEV=1")
+	}
 	gjs.Init()
 	tier := "quick"
 	if os.Getenv("DEV_TIER") != "" {
